@@ -14,6 +14,7 @@ From CG Require Import Spec.Meaning.
 From CG Require Import Spec.KnownC01.
 From CG Require Import Spec.TokAut.
 From CG Require Import Spec.Domain.
+From CG Require Import Spec.Ambig.
 (* add new Require lines above this line *)
 Require Import ExtrOcamlBasic ExtrOcamlString.
 Extraction Language OCaml.
@@ -39,5 +40,6 @@ Separate Extraction
   KnownC01.last_word_escape
   Domain.C01_domain
   Domain.C01_env_ok
+  Ambig.find
   (* add new roots above this line *)
   Prelude.pow2.
